@@ -195,10 +195,11 @@ func usedGold(t vlib.TB, sub string, b []byte) {
 			if !o.accepted {
 				return
 			}
-			out, err := P.MarshalBinary()
-			// the value must also behave the same under arithmetic (auxiliary coordinates of the receiver must not leak)
+			// the value must also behave the same under arithmetic (auxiliary coordinates of the receiver must not
+			// leak); done before marshalling P itself, which may normalise it
 			dbl, _ := c.Double(P).MarshalBinary()
 			sum, _ := c.Add(P, c.Generator()).MarshalBinary()
+			out, err := P.MarshalBinary()
 			o.views = [][]byte{out, dbl, sum}
 			o.flags = []bool{err == nil, c.IsOnCurve(P), P.IsIdentity()}
 			if freshVal != nil {
@@ -494,14 +495,14 @@ func usedFourQ(t vlib.TB, sub string, b []byte) {
 			if !o.accepted {
 				return
 			}
-			var out [32]byte
-			P.Marshal(&out)
-			x, y := fqToE2(&P.X), fqToE2(&P.Y)
 			var g, sum fourq.Point
 			g.SetGenerator()
 			sum.Add(P, &g)
 			var so [32]byte
 			sum.Marshal(&so)
+			var out [32]byte
+			P.Marshal(&out)
+			x, y := fqToE2(&P.X), fqToE2(&P.Y)
 			o.views = [][]byte{out[:], x.A.Bytes(), x.B.Bytes(), y.A.Bytes(), y.B.Bytes(), so[:]}
 			o.flags = []bool{P.IsOnCurve(), P.IsIdentity()}
 		})
